@@ -17,7 +17,9 @@ EXTENDS ScnLib
 CONSTANTS Tier, Seed, Mod, TickMs, MaxOps
 
 Queries == << "sum by (a) (m)", "m", "rate(m[3s])", "topk(1, m)", "m + on (a) group_left () n", "abs(m{a=\"x\"}) + m", "scalar(n{a=\"x\"})",
-              "m + on (a) n", "absent(nope)", "max_over_time(m[4s:2s])", "m @ 3", "sum(m) / count(m)", "time()", "quantile by (a) (0.5, m)" >>
+              "m + on (a) n", "absent(nope)", "max_over_time(m[4s:2s])", "m @ 3", "sum(m) / count(m)", "time()", "quantile by (a) (0.5, m)",
+              \* range functions over ranges of different lengths (what one query buffers must not serve the next)
+              "sum_over_time(m[2s])", "sum_over_time(m[9s])", "sum by (a) (count_over_time(m[5s]))", "last_over_time(m[1s])" >>
 \* kinds: ok = plain execution; cancel = executed with a context cancelled beforehand or midway; (failing / fallback
 \* queries are in the basket: index 8 fails with many-to-many, 9 and 10 take the fallback path)
 ExecKinds == {"ok", "ok", "cancel-before", "cancel-mid"}
